@@ -333,3 +333,15 @@ def run(cx):
         ob.require(len(w) == 1 and not bad, "returned-identity/authenticated-certificate",
                    "the PeerId of a connection is not derived from the certificate the pin / signature check authenticated: " + "; ".join(v.msg for v in bad)[:300],
                    "anemo::connection::Connection::new")
+
+    with cx.ob("C03.9", "R-PATHSEQ", "a dial answered Ok is in the connected set: every returning path of ActivePeersInner::add leaves an entry for the new connection's peer (inserted, replaced, or the kept winner) - C04.2a re-evaluated") as ob:
+        from . import c04
+        sub = cx.__class__("C03", prog, cx.tier, cx.config, cx.tree, repo=cx.repo)
+        c04.run(sub)
+        w = [x for x in sub.obs if x.oid == "C04.2a"]
+        ob.count(sum(x.evals for x in w))
+        bad = [v for x in w for v in x.violations]
+        ob.require(len(w) == 1 and not bad, "registered-before-reply/add-always-leaves-an-entry",
+                   "ActivePeersInner::add has a path that returns without an entry for the peer (the dial is still answered Ok): " + "; ".join(v.msg for v in bad)[:300],
+                   "anemo::network::connection_manager::ActivePeersInner::add")
+
